@@ -94,6 +94,9 @@ template<int K, class T, class F> void bin(const char* f, std::vector<T> const& 
         if constexpr ((K & BSV) != 0) lift<T, Q>(f, "sv", fn, va[(k + 5) % va.size()], b);
         if constexpr ((K & BV1) != 0) { glm::vec<1, T, Q> b1(vb[(k + 4) % vb.size()]); auto r = fn(a, b1); typedef decltype(r) RV; glm::vec<L, typename RV::value_type, Q> s; for (int i = 0; i < L; ++i) s[i] = typename RV::value_type(fn(a[i], b1.x));
             Ev e("lift"); e.str("f", f).str("t", TI<T>::code()).str("q", qname<Q>()).num("n", L).str("k", "vv1"); e.arg(a).arg(b1).val("s", s).res(r).emit(); }
+        // ... and with the vec1 FIRST (vec1 op vecL is a separate overload of every operator): first operand from va, second from vb as before
+        if constexpr ((K & BV1) != 0) { glm::vec<1, T, Q> a1(va[(k + 6) % va.size()]); auto r = fn(a1, b); typedef decltype(r) RV; glm::vec<L, typename RV::value_type, Q> s; for (int i = 0; i < L; ++i) s[i] = typename RV::value_type(fn(a1.x, b[i]));
+            Ev e("lift"); e.str("f", f).str("t", TI<T>::code()).str("q", qname<Q>()).num("n", L).str("k", "v1v"); e.arg(a1).arg(b).val("s", s).res(r).emit(); }
     });
 }
 enum { VVV = 1, VSS = 2, VVS = 4, SSV = 8 };
@@ -133,6 +136,13 @@ template<class T> void float_funcs() {
     tern<VVV|VVS, T>("mix", M, M, U, F3(mix)); tern<VVV|VVS, T>("mix", M, M, M, F3(mix));
     tern<VVV|SSV, T>("smoothstep", U, GE1, M, F3(smoothstep));
     tern<VVV, T>("fma", M, M, M, F3(fma));
+    // epsilon comparisons of ext/vector_relational against ext/scalar_relational: other values, and the SAME value on both sides (infinities:
+    // |x - y| is NaN there), scalar and vector epsilon
+    tern<VVV|VVS, T>("equalEps", S, S, P, F3(equal)); tern<VVV|VVS, T>("notEqualEps", S, S, P, F3(notEqual));
+    tern<VVV|VVS, T>("equalEps", M, M, U, F3(equal)); tern<VVV|VVS, T>("notEqualEps", M, M, U, F3(notEqual));
+    sweep<T>(S.size(), [&](auto lt, auto qt, size_t k) { LQ(lt, qt); auto a = win<L, T, Q>(S, k); auto b = a; auto ev = win<L, T, Q>(P, k * 5 + 2); T es = P[(k + 3) % P.size()];
+        lift<T, Q>("equalEps", "vvv", F3(equal), a, b, ev); lift<T, Q>("notEqualEps", "vvv", F3(notEqual), a, b, ev);
+        lift<T, Q>("equalEps", "vvs", F3(equal), a, b, es); lift<T, Q>("notEqualEps", "vvs", F3(notEqual), a, b, es); });
     tern<VVV, T>("min3", S, S, S, F3(min)); tern<VVV, T>("max3", S, S, S, F3(max)); tern<VVV, T>("fmin3", S, S, S, F3(fmin)); tern<VVV, T>("fmax3", S, S, S, F3(fmax));
     sweep<T>(S.size(), [&](auto lt, auto qt, size_t k) { LQ(lt, qt); auto a = win<L, T, Q>(S, k), b = win<L, T, Q>(S, k * 3 + 1), c = win<L, T, Q>(S, k * 5 + 2), d = win<L, T, Q>(S, k * 7 + 3);
         lift<T, Q>("min4", "vvvv", F4(min), a, b, c, d); lift<T, Q>("max4", "vvvv", F4(max), a, b, c, d); lift<T, Q>("fmin4", "vvvv", F4(fmin), a, b, c, d); lift<T, Q>("fmax4", "vvvv", F4(fmax), a, b, c, d);
